@@ -230,6 +230,29 @@ def random_history(rnd: random.Random, prop: str, length: int) -> tuple[dict, li
     return init, evs
 
 
+def version_grid(tier: str) -> list[tuple[dict, list]]:
+    """C05: every release version of a grid, reported through both wire paths, followed by type-gate probes."""
+    out = []
+    majors = [0, 1, 2, 3, 10] if tier == "quick" else [0, 1, 2, 3, 10, 99999]
+    probes = [dict(k="recv", n=1, c=255, cmd=3, ack=0, t=t, p="") for t in (14, 15, 17, 18, 28, 29, 32, 33, 34)]
+    probes += [dict(k="recv", n=1, c=255, cmd=4, ack=0, t=t, p="") for t in (5, 6)]
+    k = 0
+    for major in majors:
+        for minor in range(0, 7):
+            for patch in (None, 0, 1, 2):
+                for build in (None, 0, 7):
+                    if patch is None and build is not None:
+                        continue
+                    ver = f"{major}.{minor}" + (f".{patch}" if patch is not None else "") + (f".{build}" if build is not None else "")
+                    k += 1
+                    init = {"metric": True, "ver": "none" if k % 3 else "2.1", "proto": "1.4" if k % 3 else "2.1",
+                            "nodes": [[1, {"type": 17, "ver": "2.0", "bat": 0, "sn": "", "sv": "", "hb": 0, "sl": False, "rb": False, "ch": []}]]}
+                    report = (dict(k="recv", n=0, c=255, cmd=3, ack=0, t=2, p=ver) if k % 2
+                              else dict(k="recv", n=0, c=255, cmd=0, ack=0, t=18, p=ver))
+                    out.append((init, [report] + probes[(k % 4):] + [dict(k="cycle")] + probes[:2]))
+    return out
+
+
 def stream_history(rnd: random.Random, length: int) -> tuple[dict, list]:
     """C03 over a real stream transport: lines whose payload bytes may be invalid UTF-8."""
     proto = rnd.choice(["1.4", "2.0", "2.2"])
@@ -347,6 +370,9 @@ def check(prop: str) -> int:
         for _ in range(nrand):
             init, events = random_history(rnd, prop, length)
             jobs.append((init, events, None))
+        if prop == "C05":
+            for init, events in version_grid(tier):
+                jobs.append((init, events, None))
         if prop == "C03":  # the byte-stream half: the gateway over a real TCPTransport
             for _ in range(nrand):
                 init, events = stream_history(rnd, 14)
